@@ -228,6 +228,7 @@ struct LibContact {
     double k1 = 0, k2 = 0; bool hasCurv = false;
     std::set<int> facesA, facesB; int lowestVertex = -1; double separation = 0;
     bool hasX = false; Transform X12; int condition = 0; std::string err;
+    mutable bool gross = false;   // set by judge(): a grossly wrong answer, reported once under gross@...; not compared further
     Json toJson() const {
         Json j = Json::obj().set("present", present).set("type", type).set("s1isA", s1isA).set("count", count);
         if (present) { j.set("depth", depth).set("normal", jV3(normal)).set("point", jV3(point)).set("k", Json::arr().push(k1).push(k2)); }
@@ -356,16 +357,30 @@ static LibContact directImplicit(int which, const Shape& A, const Transform& XA,
 }
 
 // ------------------------------------------------------------------------------------------------ oracles
-struct Tol { double d, n, p, k, x; bool iterative; };
+// d depth, n normal angle, p point, k curvature (relative), x transform; pd: accuracy of the two reported surface
+// points of an iterative PointContact, whose normal is (p1-p2)/|p1-p2| and therefore only good to pd/depth
+struct Tol { double d, n, p, k, x; bool iterative; double pd; };
+static double normalTol(const Tol& tol, double fac, const LibContact& L) {
+    double t = tol.n * fac;
+    if (tol.iterative && L.type == T_Point && L.depth > 0) t += tol.pd / L.depth;
+    return t;
+}
 static double angleBetween(const Vec3& a, const Vec3& b) { return std::atan2((a % b).norm(), ~a * b); }
 static double xformDiff(const Transform& a, const Transform& b, double scale) {
     double m = 0;
     for (int i = 0; i < 3; ++i) for (int j = 0; j < 3; ++j) m = std::max(m, std::fabs(a.R().asMat33()(i, j) - b.R().asMat33()(i, j)));
     return m + (a.p() - b.p()).norm() / scale;
 }
+static bool g_verbose = false;
+// c.check plus, with --verbose, a stderr line for every comparison that uses more than 1% of its tolerance
+static bool chk(Ctx& c, const std::string& key, double resid, double tol, const std::function<Json()>& w) {
+    if (g_verbose && resid > 1e-2 * tol && resid <= tol) fprintf(stderr, "NEAR %s ratio=%.3g case=%ld %s\n", key.c_str(), resid / tol, c.curCase, w().dump().c_str());
+    return c.check(key, resid, tol, w);
+}
 struct JudgeCtx {
-    Ctx& c; const Scene& sc; std::string tag;   // pair/layer
+    Ctx& c; const Scene& sc; std::string tag;   // pair/layer (coverage); violation keys use <clause>@<pair>:<layer>[:detail]
     std::function<Json()> wit;
+    std::string ktag() const { std::string k = tag; size_t p = k.find('/'); if (p != std::string::npos) k[p] = ':'; return k; }
 };
 static void faceDiff(const std::set<int>& lib, const std::vector<char>& cls, int& missing, int& extra, int& firstBad) {
     for (size_t f = 0; f < cls.size(); ++f) {
@@ -377,60 +392,60 @@ static void faceDiff(const std::set<int>& lib, const std::vector<char>& cls, int
 }
 // compare one library answer with the exact geometry
 static void judge(JudgeCtx& J, const Exact& ex, const LibContact& L, const Tol& tol, const Transform X[2], double scale) {
-    Ctx& c = J.c; const std::string& t = J.tag;
+    Ctx& c = J.c; const std::string t = J.ktag();
     auto W = [&](const char* what) { return [&J, &L, what]() { Json j = J.wit(); j.set("what", what).set("lib", L.toJson()); return j; }; };
-    if (!L.err.empty()) { c.viol("protocol:" + t, W("unexpected outcome")()); return; }
-    c.require("count:" + t, L.count <= 1, W("more than one Contact for a single pair of surfaces"));
-    if (L.type == T_Other) { c.viol("type:" + t, W("Contact of an unexpected type")()); return; }
+    if (!L.err.empty()) { c.viol("protocol@" + t, W("unexpected outcome")()); return; }
+    c.require("count@" + t, L.count <= 1, W("more than one Contact for a single pair of surfaces"));
+    if (L.type == T_Other) { c.viol("type@" + t, W("Contact of an unexpected type")()); return; }
     double b = J.sc.band;
     // ---- existence
     bool must = false, mustNot = false;
     if (ex.isMesh) {
         if (ex.me.engulfed) {
             // volumes overlap but the surfaces do not cross: keyed separately (see header / report)
-            c.require("exists:" + t + ":engulfed-missed", L.present, W("one object wholly inside the other is not reported"));
+            c.require("exists@" + t + ":engulfed-missed", L.present, W("one object wholly inside the other is not reported"));
             if (!L.present) return;
         }
         must = ex.me.anyIn && !ex.me.engulfed; mustNot = !ex.me.anyIn && !ex.me.anyBand && !ex.me.engulfed;
     } else { must = ex.sd < -b; mustNot = ex.sd > b; }
-    if (must) c.require("exists:" + t + ":missed", L.present, W("overlapping shapes but no contact reported"));
-    else if (mustNot) c.require("exists:" + t + ":spurious", !L.present, W("separated shapes but a contact is reported"));
+    if (must) c.require("exists@" + t + ":missed", L.present, W("overlapping shapes but no contact reported"));
+    else if (mustNot) c.require("exists@" + t + ":spurious", !L.present, W("separated shapes but a contact is reported"));
     else c.obs("in-band-either-accepted");
     if (L.type == T_Broken) {
-        c.check("broken:" + t, std::fabs(L.separation - ex.sd), tol.d, W("BrokenContact separation != exact distance"));
-        c.require("broken:" + t + ":positive", L.separation > 0 && ex.sd > -b, W("BrokenContact while still overlapping"));
+        chk(c, "broken@" + t, std::fabs(L.separation - ex.sd), tol.d, W("BrokenContact separation != exact distance"));
+        c.require("broken@" + t + ":positive", L.separation > 0 && ex.sd > -b, W("BrokenContact while still overlapping"));
     }
     if (L.hasX) {
         const Transform& X1 = X[L.s1isA ? 0 : 1]; const Transform& X2 = X[L.s1isA ? 1 : 0];
-        c.check("xform:" + t, xformDiff(L.X12, ~X1 * X2, scale), tol.x, W("Contact::getTransform() != X_S1S2"));
+        chk(c, "xform@" + t, xformDiff(L.X12, ~X1 * X2, scale), tol.x, W("Contact::getTransform() != X_S1S2"));
     }
     if (!L.present) return;
     // ---- finite
     if (L.type != T_Mesh) {
         bool fin = std::isfinite(L.depth) && (L.type == T_Brick || (gm::finite3(L.normal) && gm::finite3(L.point)));
-        if (!c.require("finite:" + t, fin, W("NaN/Inf in the reported contact"))) return;
+        if (!c.require("finite@" + t, fin, W("NaN/Inf in the reported contact"))) return;
     }
     // ---- meshes: face sets
     if (L.type == T_Mesh) {
-        if (!ex.isMesh) { c.viol("type:" + t, W("mesh contact for a non-mesh pair")()); return; }
+        if (!ex.isMesh) { c.viol("type@" + t, W("mesh contact for a non-mesh pair")()); return; }
         int missing = 0, extra = 0, bad = -1;
         faceDiff(L.facesA, ex.me.clsA, missing, extra, bad);
         faceDiff(L.facesB, ex.me.clsB, missing, extra, bad);
         auto WF = [&J, &L, missing, extra, bad]() { Json j = J.wit(); j.set("what", "face set differs from brute force").set("missing", missing).set("extra", extra).set("firstBadFace", bad).set("lib", L.toJson()); return j; };
-        c.require("faces:" + t + ":missing", missing == 0, WF);
-        c.require("faces:" + t + ":extra", extra == 0, WF);
+        c.require("faces@" + t + ":missing", missing == 0, WF);
+        c.require("faces@" + t + ":extra", extra == 0, WF);
         return;
     }
-    if (ex.isMesh) { c.viol("type:" + t, W("non-mesh contact for a mesh pair")()); return; }
+    if (ex.isMesh) { c.viol("type@" + t, W("non-mesh contact for a mesh pair")()); return; }
     // ---- brick
     if (L.type == T_Brick) {
-        if (!ex.isBrick) { c.viol("type:" + t, W("brick contact for a non-brick pair")()); return; }
-        c.check("depth:" + t, std::fabs(L.depth + ex.sd), tol.d, W("depth != exact penetration of the lowest vertex"));
+        if (!ex.isBrick) { c.viol("type@" + t, W("brick contact for a non-brick pair")()); return; }
+        chk(c, "depth@" + t, std::fabs(L.depth + ex.sd), tol.d, W("depth != exact penetration of the lowest vertex"));
         bool vok = L.lowestVertex >= 0 && L.lowestVertex < 8;
-        c.check("vertex:" + t, vok ? std::fabs(ex.vdepth[L.lowestVertex] + ex.sd) : 1e300, tol.d, W("reported lowest vertex is not the deepest one"));
+        chk(c, "vertex@" + t, vok ? std::fabs(ex.vdepth[L.lowestVertex] + ex.sd) : 1e300, tol.d, W("reported lowest vertex is not the deepest one"));
         return;
     }
-    if (!ex.hasGeom) { c.viol("type:" + t, W("point contact for a pair without point geometry")()); return; }
+    if (!ex.hasGeom) { c.viol("type@" + t, W("point contact for a pair without point geometry")()); return; }
     // ---- depth / normal / point
     if (ex.numMinima > 1) {
         // several local minima: judge self-consistency only
@@ -438,27 +453,37 @@ static void judge(JudgeCtx& J, const Exact& ex, const LibContact& L, const Tol& 
         cx::Ellip EA = asEllip(*J.sc.A, X[0]), EB = asEllip(*J.sc.B, X[1]);
         V3 n(L.normal), P = V3(L.point) + (LD)(L.depth / 2) * n, Q = V3(L.point) - (LD)(L.depth / 2) * n;
         auto fval = [](const cx::Ellip& E, const V3& p) { return (double)(cx::dot(p - E.c, E.Minv.mul(p - E.c)) - 1); };
-        c.check("consistent:" + t + ":on-surface", std::max(std::fabs(fval(EA, P)), std::fabs(fval(EB, Q))), 1e-6, W("reported contact points are not on the two surfaces"));
+        chk(c, "consistent@" + t + ":on-surface", std::max(std::fabs(fval(EA, P)), std::fabs(fval(EB, Q))), 1e-6, W("reported contact points are not on the two surfaces"));
         V3 nA = cx::unit(EA.Minv.mul(P - EA.c)), nB = cx::unit(EB.Minv.mul(Q - EB.c));
         double an = std::max(angleBetween(toV(nA), L.normal), angleBetween(toV(nB), -L.normal));
-        c.check("consistent:" + t + ":normals", an, 1e-5, W("reported normal is not the surface normal at the reported points"));
+        chk(c, "consistent@" + t + ":normals", an, 1e-5, W("reported normal is not the surface normal at the reported points"));
         return;
     }
-    c.check("depth:" + t, std::fabs(L.depth + ex.sd), tol.d, W("depth != exact penetration depth"));
+    {
+        // a grossly wrong contact (the far-side solution, an unconverged iterate) is one finding, not three
+        double sz = std::min(J.sc.A->smin, J.sc.B->smin);
+        if (angleBetween(L.normal, ex.normal) > 0.5 || std::fabs(L.depth + ex.sd) > 0.25 * sz + 100 * tol.d) {
+            L.gross = true;
+            c.viol("gross@" + t, W("reported contact is not the contact of these shapes (depth/normal far from exact)")());
+            return;
+        }
+    }
+    chk(c, "depth@" + t, std::fabs(L.depth + ex.sd), tol.d, W("depth != exact penetration depth"));
     if (ex.cond > 1e3) { c.skip("ill-conditioned-normal"); return; }
     double fac = tol.iterative ? std::max(1.0, ex.cond) : 1.0;
-    c.check("normal:" + t, std::max(angleBetween(L.normal, ex.normal), std::fabs(L.normLen - 1)), tol.n * fac, W("normal != exact contact normal (surface1 -> surface2)"));
-    c.check("point:" + t, (L.point - ex.point).norm(), tol.p * fac, W("contact point != midpoint of the two extreme points"));
+    chk(c, "normal@" + t, std::max(angleBetween(L.normal, ex.normal), std::fabs(L.normLen - 1)), normalTol(tol, fac, L), W("normal != exact contact normal (surface1 -> surface2)"));
+    chk(c, "point@" + t, (L.point - ex.point).norm(), tol.p * fac, W("contact point != midpoint of the two extreme points"));
     if (L.hasCurv && ex.hasCurv) {
+        // relative curvatures are not part of the statement of C35 (depth / normal / point): observed, not judged
         double kr = std::max(std::fabs(L.k1 - ex.kmax), std::fabs(L.k2 - ex.kmin)) / ex.kmax;
-        c.check("curv:" + t, kr, tol.k * fac, W("relative principal curvatures != exact"));
+        c.obs(kr <= 1e3 * tol.k * fac ? "extra:curvature-agrees" : "extra:curvature-differs@" + t);
     }
 }
 // metamorphic comparison of two library answers for the same physical configuration ('other' already mapped back)
 static void compare(JudgeCtx& J, const char* clause, const Exact& ex, const LibContact& base, const LibContact& other, const Tol& tol) {
-    Ctx& c = J.c; std::string t = std::string(clause) + ":" + J.tag;
+    Ctx& c = J.c; std::string t = std::string(clause) + "@" + J.ktag();
     auto W = [&](const char* what) { return [&J, &base, &other, what]() { Json j = J.wit(); j.set("what", what).set("base", base.toJson()).set("other", other.toJson()); return j; }; };
-    if (!base.err.empty() || !other.err.empty()) return;   // already reported by judge()
+    if (!base.err.empty() || !other.err.empty() || base.gross || other.gross) return;   // already reported by judge()
     bool borderline = ex.isMesh ? (!ex.me.anyIn && ex.me.anyBand) : std::fabs(ex.sd) <= J.sc.band;
     if (base.present != other.present) {
         if (borderline) c.obs("in-band-either-accepted");
@@ -478,12 +503,12 @@ static void compare(JudgeCtx& J, const char* clause, const Exact& ex, const LibC
         c.require(t + ":faces", bad == 0, W("face sets differ"));
         return;
     }
-    c.check(t + ":depth", std::fabs(base.depth - other.depth), 2 * tol.d, W("depth differs"));
+    chk(c, t + ":depth", std::fabs(base.depth - other.depth), 2 * tol.d, W("depth differs"));
     if (base.type == T_Brick) { c.require(t + ":vertex", base.lowestVertex == other.lowestVertex || std::fabs(ex.vdepth[base.lowestVertex & 7] - ex.vdepth[other.lowestVertex & 7]) <= tol.d, W("lowest vertex differs")); return; }
     if (ex.numMinima > 1 || ex.cond > 1e3) return;
     double fac = tol.iterative ? std::max(1.0, ex.cond) : 1.0;
-    c.check(t + ":normal", angleBetween(base.normal, other.normal), 2 * tol.n * fac, W("normal differs (after mapping back)"));
-    c.check(t + ":point", (base.point - other.point).norm(), 2 * tol.p * fac, W("contact point differs (after mapping back)"));
+    chk(c, t + ":normal", angleBetween(base.normal, other.normal), 2 * normalTol(tol, fac, base), W("normal differs (after mapping back)"));
+    chk(c, t + ":point", (base.point - other.point).norm(), 2 * tol.p * fac, W("contact point differs (after mapping back)"));
 }
 static LibContact mapBack(const LibContact& L, const Transform& XM) {
     LibContact m = L;
@@ -503,7 +528,7 @@ static bool solveOutermost(const std::function<double(double)>& f, double tMax, 
     for (int k = grid - 1; k >= 0; --k) {
         double lo = tMax * k / grid, flo = f(lo);
         if (flo < target) {
-            for (int it = 0; it < 48; ++it) { double mid = 0.5 * (lo + hi); if (f(mid) < target) lo = mid; else hi = mid; }
+            for (int it = 0; it < 40; ++it) { double mid = 0.5 * (lo + hi); if (f(mid) < target) lo = mid; else hi = mid; }
             tOut = 0.5 * (lo + hi); return true;
         }
         hi = lo;
@@ -511,6 +536,9 @@ static bool solveOutermost(const std::function<double(double)>& f, double tMax, 
     return false;
 }
 
+#include <time.h>
+static double cpuNow() { timespec ts; clock_gettime(CLOCK_PROCESS_CPUTIME_ID, &ts); return ts.tv_sec + 1e-9 * ts.tv_nsec; }
+static std::map<std::string,double> g_prof; static double g_t0 = 0; static void profMark(const char* w) { double t = cpuNow(); g_prof[w] += t - g_t0; g_t0 = t; }
 struct Opts { int pair = -1; double maxAspect = 4; bool thorough = false; bool verbose = false; };
 
 static void runCase(Ctx& c, long idx, Rng& r, const Opts& o) {
@@ -519,14 +547,27 @@ static void runCase(Ctx& c, long idx, Rng& r, const Opts& o) {
     const PairDef& pd = PAIRS[pi];
     const bool retreat = (j & 1) != 0;
     const bool aOnGround = (j >> 1) % 4 == 3;
-    c.setPhase(std::string("build ") + pd.name);
+    g_t0 = cpuNow(); c.setPhase(std::string("build ") + pd.name);
     Shape A, B;
     makeShape(A, pd.a, r, o.thorough, o.maxAspect); makeShape(B, pd.b, r, o.thorough, o.maxAspect);
+    // variant for the two pairs with a finite object A against a mesh: A small enough to sit wholly inside B
+    const bool engulf = (pi == 7 || pi == 8) && (j % 4 == 2);
+    if (engulf && pi == 7) { A.r = B.size * r.uni(0.05, 0.12); A.geo = ContactGeometry::Sphere(A.r); A.size = A.smin = A.r; }
+    if (engulf && pi == 8) {
+        double f = B.size * r.uni(0.06, 0.12) / A.size;
+        for (auto& p : A.mesh.v) p *= f;
+        gm::meshFinish(A.mesh);
+        Array_<Vec3> vv(A.mesh.v.begin(), A.mesh.v.end()); Array_<int> ff(A.mesh.f.begin(), A.mesh.f.end());
+        A.geo = ContactGeometry::TriangleMesh(vv, ff);
+        A.size = A.mesh.scale; A.smin = 0.4 * A.mesh.scale; A.center = A.mesh.center;
+    }
     const Shape* sh[2] = {&A, &B};
     Transform xbs[2] = {randFrame(r, 2), randFrame(r, r.integer(0, 2))};
     Sys S1, S2;
     S1.build(sh, xbs, aOnGround, false, pd.cda); S2.build(sh, xbs, aOnGround, true, pd.cda);
     State warm = S1.sys.getDefaultState();
+    // 'cold' states never receive autoUpdateDiscreteVariables(): their previous-contacts variable stays empty
+    State cold = S1.sys.getDefaultState(), st2 = S2.sys.getDefaultState();
 
     Scene sc; sc.pi = pi; sc.pd = &pd; sc.A = &A; sc.B = &B;
     const double sizeRef = std::max(A.size, B.size);
@@ -545,15 +586,17 @@ static void runCase(Ctx& c, long idx, Rng& r, const Opts& o) {
 
     static const char* APPROACH[6] = {"separated", "near-out", "band", "near-in", "shallow", "deep"};
     int nPoses = pd.mesh ? 5 : 6;
+    if (engulf) ++nPoses;
     std::vector<std::string> path;
     for (int k = 0; k < 6; ++k) { if (pd.mesh && k == (int)(j % 2 ? 1 : 3)) continue; path.push_back(APPROACH[k]); }
     if (retreat) std::reverse(path.begin(), path.end());
+    if (engulf) path.push_back("engulfed");
     Transform XM(randRotation(r), randVec3(r, 2.0));   // the common rigid motion
 
     Json desc = Json::obj().set("pair", pd.name).set("A", A.toJson()).set("B", B.toJson()).set("aOnGround", aOnGround).set("retreat", retreat);
     for (int k = 0; k < nPoses; ++k) {
         const std::string& want = path[k];
-        c.setPhase(std::string(pd.name) + " place " + want);
+        profMark("build+prev"); c.setPhase(std::string(pd.name) + " place " + want);
         if (k > 0) { RB = Rotation(r.uni(0.02, 0.12), randUnit3(r)) * RB; Vec3 du = randVec3(r, 0.05); u = u + du; u = u / u.norm(); }
         // ---- placement
         double target, t = 0; bool placed;
@@ -564,9 +607,20 @@ static void runCase(Ctx& c, long idx, Rng& r, const Opts& o) {
         else if (want == "near-in") target = -bnd * r.logUni(3, 300);
         else if (want == "shallow") target = -s * r.logUni(1e-4, 0.03);
         else target = -s * r.uni(0.05, 0.5);
-        if (pi == 8) {
-            auto f = [&](double tt) { return signedDistFast(sc, XA, poseB(B, RB, ref, u, tt)); };
-            double t0 = 0; placed = solveOutermost(f, tMax, 10, 1e-9 * sizeRef, t0);
+        if (want == "engulfed") {
+            // put A's centre at a point well inside B: a face centroid of B moved inwards
+            int f = r.integer(0, B.mesh.nf() - 1);
+            Vec3 a = B.mesh.v[B.mesh.f[3 * f]], b = B.mesh.v[B.mesh.f[3 * f + 1]], cc = B.mesh.v[B.mesh.f[3 * f + 2]];
+            Vec3 nrm = (b - a) % (cc - a); nrm = nrm / nrm.norm();
+            Vec3 qB = (a + b + cc) / 3 - nrm * (A.size * r.uni(1.5, 2.5));
+            Transform XBe(RB, XA * A.center - RB * qB);
+            placed = true; t = 0;
+            ref = XBe.p() + RB * B.center; u = Vec3(1, 0, 0);   // so that poseB(B, RB, ref, u, 0) == XBe
+        } else if (pi == 8) {
+            const double eps = 1e-9 * sizeRef;
+            cx::WMesh wA = cx::placeMesh(A.mesh, XA);
+            auto f = [&](double tt) { return cx::meshesWithin(wA, cx::placeMesh(B.mesh, poseB(B, RB, ref, u, tt)), eps) ? 0.0 : 1.0; };
+            double t0 = 0; placed = solveOutermost(f, tMax, 12, 0.5, t0);
             t = t0 + target;
         } else {
             auto f = [&](double tt) { return signedDistFast(sc, XA, poseB(B, RB, ref, u, tt)); };
@@ -576,14 +630,14 @@ static void runCase(Ctx& c, long idx, Rng& r, const Opts& o) {
         Transform XT[2] = {XA, poseB(B, RB, ref, u, t)};
 
         // ---- the library, base presentation (warm along the path)
-        c.setPhase(std::string(pd.name) + " evaluate " + want);
+        profMark("place"); c.setPhase(std::string(pd.name) + " evaluate " + want);
         Eval e0 = evalSys(S1, warm, XT);
         warm.autoUpdateDiscreteVariables();
         const Exact ex = computeExact(sc, e0.X[0], e0.X[1]);
         const std::string cls = poseClass(sc, ex);
         const double scale = A.size + B.size + e0.X[0].p().norm() + e0.X[1].p().norm() + XM.p().norm() + 1e-3;
-        Tol tc = {1e-9 * scale, 1e-9, 1e-9 * scale, 1e-8, 1e-12, false};
-        Tol ti = {1e-7 * scale, 1e-6, 1e-7 * scale, 1e-6, 1e-12, true};
+        Tol tc = {1e-9 * scale, 1e-9, 1e-9 * scale, 1e-8, 1e-12, false, 0};
+        Tol ti = {1e-7 * scale, 1e-6, 1e-7 * scale, 1e-6, 1e-12, true, 1e-10 * scale};
         const Tol& tolReg = pd.iterative ? ti : tc;                       // registered algorithms/trackers
         const Tol& tolImp = (pd.implicit == 2) ? ti : tc;                 // ConvexImplicitPair is iterative for every pair
         auto witFor = [&](const char* layer, const Transform* X, const Exact* exx) {
@@ -607,18 +661,16 @@ static void runCase(Ctx& c, long idx, Rng& r, const Opts& o) {
         else if (e0.trk.type == T_Broken) c.obs("trk-condition:Broken");
 
         // ---- cold evaluation at the same pose == warm-started tracking
-        {
-            c.setPhase(std::string(pd.name) + " cold " + want);
-            State cold = S1.sys.getDefaultState();
+        if (k > 0) {
+            profMark("evaluate+exact+judge"); c.setPhase(std::string(pd.name) + " cold " + want);
             Eval e1 = evalSys(S1, cold, XT);
             judge(Jt, ex, e1.trk, tolReg, e1.X, scale);
-            if (k > 0) compare(Jt, "warm", ex, e1.trk, e0.trk, tolReg);
+            compare(Jt, "warm", ex, e1.trk, e0.trk, tolReg);
         }
         // ---- the other registration order
         Eval e2;
         {
-            c.setPhase(std::string(pd.name) + " swapped " + want);
-            State st2 = S2.sys.getDefaultState();
+            profMark("cold"); c.setPhase(std::string(pd.name) + " swapped " + want);
             e2 = evalSys(S2, st2, XT);
             if (pd.cda) { judge(Jc, ex, e2.cda, tolReg, e2.X, scale); compare(Jc, "swap", ex, e0.cda, e2.cda, tolReg); }
             judge(Jt, ex, e2.trk, tolReg, e2.X, scale); compare(Jt, "swap", ex, e0.trk, e2.trk, tolReg);
@@ -627,9 +679,8 @@ static void runCase(Ctx& c, long idx, Rng& r, const Opts& o) {
         Transform XTm[2] = {XM * e0.X[0], XM * e0.X[1]};
         Exact exm = movedExact(ex, XM);
         if (!aOnGround) {
-            c.setPhase(std::string(pd.name) + " moved " + want);
-            State st3 = S1.sys.getDefaultState();
-            Eval e3 = evalSys(S1, st3, XTm);
+            profMark("swapped"); c.setPhase(std::string(pd.name) + " moved " + want);
+            Eval e3 = evalSys(S1, cold, XTm);
             // the exact geometry of the moved configuration is the moved exact geometry (poses agree to rounding)
             JudgeCtx Jcm{c, sc, Jc.tag, witFor("cda(moved)", e3.X, &exm)}, Jtm{c, sc, Jt.tag, witFor("trk(moved)", e3.X, &exm)};
             if (pd.cda) { judge(Jcm, exm, e3.cda, tolReg, e3.X, scale); compare(Jc, "motion", ex, e0.cda, mapBack(e3.cda, XM), tolReg); }
@@ -637,7 +688,7 @@ static void runCase(Ctx& c, long idx, Rng& r, const Opts& o) {
         }
         // ---- direct calls
         if (pd.cda) {
-            c.setPhase(std::string(pd.name) + " cda-direct " + want);
+            profMark("moved"); c.setPhase(std::string(pd.name) + " cda-direct " + want);
             JudgeCtx Jd{c, sc, std::string(pd.name) + "/cda-direct", witFor("cda-direct", e0.X, &ex)};
             LibContact d0 = directCda(A, e0.X[0], B, e0.X[1], false);
             judge(Jd, ex, d0, tolReg, e0.X, scale); c.cover(Jd.tag + "/" + cls);
@@ -647,7 +698,7 @@ static void runCase(Ctx& c, long idx, Rng& r, const Opts& o) {
             judge(Jdm, exm, d2, tolReg, XTm, scale); compare(Jd, "motion", ex, d0, mapBack(d2, XM), tolReg);
         }
         if (pd.implicit) {
-            c.setPhase(std::string(pd.name) + " implicit " + want);
+            profMark("cda-direct"); c.setPhase(std::string(pd.name) + " implicit " + want);
             JudgeCtx Ji{c, sc, std::string(pd.name) + "/implicit", witFor("implicit", e0.X, &ex)};
             LibContact i0 = directImplicit(pd.implicit, A, e0.X[0], B, e0.X[1], false);
             judge(Ji, ex, i0, tolImp, e0.X, scale); c.cover(Ji.tag + "/" + cls);
@@ -666,8 +717,9 @@ int main(int argc, char** argv) {
     o.pair = (int)a.getInt("pair", -1);
     o.maxAspect = a.getNum("aspect", 4.0);
     o.thorough = a.tier == "thorough";
-    o.verbose = a.verbose;
+    o.verbose = a.verbose; g_verbose = a.verbose;
     if (a.prop != "C35") { fprintf(stderr, "mon_collide: unknown property %s\n", a.prop.c_str()); return 2; }
+    struct ProfDump { ~ProfDump() { if (getenv("COLLIDE_PROF")) for (auto& kv : g_prof) fprintf(stderr, "prof %-28s %.3f\n", kv.first.c_str(), kv.second); } } profDump;
     return runCases(c, [&](long i, Rng& r) {
         try { runCase(c, i, r, o); }
         catch (const std::exception& ex) {
